@@ -253,3 +253,46 @@ func sortKeys[K comparable](keys []K) {
 		sort.Slice(keys, func(i, j int) bool { return fmt.Sprint(keys[i]) < fmt.Sprint(keys[j]) })
 	}
 }
+
+// SendTo is the two-step form of Send used by rewritten send statements: the value is
+// passed by assignability (an untyped constant or a concrete value into an interface
+// element type), which one-step type inference would reject.
+func SendTo[T any](site int, ch chan<- T) func(T) {
+	return func(v T) { Send(site, ch, v) }
+}
+
+func SendCaseTo[T any](ch chan<- T) func(T) *SCase[T] {
+	return func(v T) *SCase[T] { return SendCase(ch, v) }
+}
+
+// Entry is one key of a map being iterated through the iteration-order seam. Get looks
+// the key up again at the moment the loop reaches it: entries deleted meanwhile are
+// skipped and entries inserted meanwhile are not visited, which is one of the behaviours
+// the language allows for a native range loop.
+type Entry[K comparable, V any] struct {
+	m map[K]V
+	k K
+}
+
+func (e Entry[K, V]) Get() (K, V, bool) {
+	v, ok := e.m[e.k]
+	return e.k, v, ok
+}
+
+func MapEntries[K comparable, V any](site int, m map[K]V) []Entry[K, V] {
+	keys := MapKeys(site, m)
+	es := make([]Entry[K, V], len(keys))
+	for i, k := range keys {
+		es[i] = Entry[K, V]{m, k}
+	}
+	return es
+}
+
+// HookFn receives the name-anchored observations inserted by the rewriter (R7).
+var HookFn func(kind, a, b string)
+
+func Hook(kind, a, b string) {
+	if HookFn != nil {
+		HookFn(kind, a, b)
+	}
+}
